@@ -41,7 +41,8 @@ def run_scenario(bins, sc, keep=False):
                 steps = sc.get("scripts", {}).get("%s|%s" % (c, t["path"]), [{"op": "exit", "code": 0}])
                 ext = sc.get("exts", {}).get(c, ".sh")
                 if kd != "undef":
-                    fx.add_cmd(t["path"], c, _resolve_steps(fx, sc, steps), kind=kd, ext=ext)
+                    fx.add_cmd(t["path"], c, _resolve_steps(fx, sc, steps), kind=kd, ext=ext,
+                               cmd_dir=sc.get("cmd_dirs", {}).get(t["path"]))
         # scripts may reference other tasks' keys: resolve after all commands exist
         for t in sc["targets"]:
             for c in cmds:
@@ -296,8 +297,9 @@ def random_scenario(seed, nt_range=(5, 12), fail_prob=0.35, slow_deps=True):
     return sc
 
 
-def barrier_scenario(size, position, seed=0):
-    """C16: a group of `size` members, each waiting until all the others have started."""
+def barrier_scenario(size, position, seed=0, shared=False):
+    """C16: a group of `size` members, each waiting until all the others have started.
+    shared: every member resolves the command to the same executable file (a common command directory)."""
     rng = random.Random(seed)
     before = {"first": 0, "middle": 1, "last": 2}[position]
     after = {"first": 2, "middle": 1, "last": 0}[position]
@@ -325,5 +327,11 @@ def barrier_scenario(size, position, seed=0):
         scripts["build|" + m] = [{"op": "wait", "tasks": [["build", o, "started"] for o in members],
                                   "timeout_ms": 60000, "on_timeout": "barrier_timeout"},
                                  {"op": "out", "text": "member %s done\n" % m}, {"op": "exit", "code": 0}]
-    return {"targets": ts, "commands": cmds, "kinds": {}, "fou": False, "scripts": scripts, "mode": "all",
-            "label": "barrier-%d-%s" % (size, position), "timeout": 170}
+    sc = {"targets": ts, "commands": cmds, "kinds": {}, "fou": False, "scripts": scripts, "mode": "all",
+          "label": "barrier-%d-%s%s" % (size, position, "-shared" if shared else ""), "timeout": 170}
+    if shared:
+        for t in ts:
+            if t["path"] in members:
+                t["commands"] = {"path": "tools/cmd"}
+        sc["cmd_dirs"] = {m: "tools/cmd" for m in members}
+    return sc
